@@ -495,7 +495,7 @@ def check_C01(tier, seed):
     gate, obl = gate_and_ties(run, ctx, 'C01', seed, tier)
     rnd = random.Random(seed * 1000003 + 1)
     st = Stats()
-    envs = envs_for(rnd, tier, 12, 100)
+    envs = envs_for(rnd, tier, 12, 100, oneof_defaults=True)
     per_env = 40 if tier == 'quick' else 120
     in_dom = [0, 0, 0, 0]
     for env in envs:
